@@ -11,7 +11,84 @@ from vf.quiet import quiet
 
 
 @st.composite
+def eeq_case(draw):
+    """expectation constraints written as equalities: with E(z) fixed by the ambiguity set, E(a.x + g.z + x'Gz) == rhs is a linear
+    equation in x (and the worst-case expected objective is linear in x too), so the optimum is that of a small LP"""
+    S = draw(st.integers(1, 3))
+    nx = draw(st.integers(2, 3))
+    nz = draw(st.integers(1, 2))
+    mu = [draw(st.sampled_from([0.25, 0.5, 0.75])) for _ in range(nz)]
+    xw = [float(draw(st.integers(0, 2))) for _ in range(nx)]
+    rows = []
+    for _ in range(draw(st.integers(1, 2))):
+        a = [float(draw(st.integers(-2, 2))) for _ in range(nx)]
+        if not any(a):
+            a[0] = 1.0
+        g = [float(draw(st.integers(-2, 2))) for _ in range(nz)]
+        G = [[float(draw(st.sampled_from([0, 0, 1, -1]))) for _ in range(nz)] for _ in range(nx)] if draw(st.booleans()) else None
+        rows.append({'a': a, 'g': g, 'G': G, 'how': draw(st.sampled_from(['eq', 'eq', 'pair', 'eq_rhs_left']))})
+    return {'variant': 'eeq', 'S': S, 'nx': nx, 'nz': nz, 'mu': mu, 'xw': xw, 'rows': rows,
+            'c': [float(draw(st.integers(-2, 2))) for _ in range(nx)], 'd': [float(draw(st.integers(-1, 1))) for _ in range(nz)],
+            'sense': draw(st.sampled_from(['minsup', 'maxinf'])), 'width': [draw(st.sampled_from([0.25, 0.5])) for _ in range(S)]}
+
+
+def check_eeq(case):
+    from scipy.optimize import linprog
+    from rsome import dro, E
+    nx, nz, S = case['nx'], case['nz'], case['S']
+    mu, xw = np.array(case['mu']), np.array(case['xw'])
+    labels = ['variant:eeq', 'S:%d' % S] + ['eeq:' + r['how'] for r in case['rows']]
+    m = dro.Model(S)
+    x = m.dvar(nx)
+    z = m.rvar(nz)
+    fs = m.ambiguity()
+    for s_ in range(S):
+        fs[s_].suppset(z >= mu - case['width'][s_] * (s_ + 1), z <= mu + case['width'][s_])
+    fs.exptset(E(z) == mu)
+    c, d = np.array(case['c']), np.array(case['d'])
+    obj = E(c @ x + d @ z)
+    (m.minsup if case['sense'] == 'minsup' else m.maxinf)(obj, fs)
+    m.st(x >= -1, x <= 3)
+    A_eq, b_eq = [], []
+    for r in case['rows']:
+        a, g = np.array(r['a']), np.array(r['g'])
+        e = a @ x + g @ z
+        coef = a.copy()
+        if r['G'] is not None:
+            G = np.array(r['G'])
+            e = e + x @ (G @ z)
+            coef = coef + G @ mu
+        rhs = float(coef @ xw + g @ mu)
+        if r['how'] == 'eq':
+            m.st(E(e) == rhs)
+        elif r['how'] == 'eq_rhs_left':
+            m.st(rhs == E(e))
+        else:
+            m.st(E(e) <= rhs, E(e) >= rhs)
+        A_eq.append(coef)
+        b_eq.append(rhs - float(g @ mu))
+    with quiet():
+        m.solve(display=False)
+    sol = m.solution
+    got = m.get() if sol is not None and sol.x is not None and not np.isnan(sol.objval) else None
+    sg = 1.0 if case['sense'] == 'minsup' else -1.0
+    res = linprog(sg * c, A_eq=np.array(A_eq), b_eq=np.array(b_eq), bounds=[(-1, 3)] * nx, method='highs')
+    if res.status != 0:
+        return Outcome.skip('eeq_reference_lp_status_%d' % res.status, labels)
+    ref = sg * float(res.fun) + float(d @ mu)
+    if got is None:
+        return Outcome.fail('eeq:no_solution', 'model with expectation equalities is reported unsolved (status %s), the reference optimum is %.9g' % (
+            getattr(sol, 'status', None), ref), labels)
+    if abs(got - ref) > 1e-6 * (1 + abs(ref)):
+        return Outcome.fail('eeq:value', 'E(...) == c constraints: reported optimum %.9g, the linear program they denote has optimum %.9g' % (got, ref), labels)
+    free = sg * float(linprog(sg * c, bounds=[(-1, 3)] * nx, method='highs').fun) + float(d @ mu)
+    return Outcome.ok(abs(free - ref) > 1e-9, labels)
+
+
+@st.composite
 def c04_case(draw):
+    if draw(st.integers(0, 9)) == 0:
+        return draw(eeq_case())
     kind = draw(st.sampled_from(['general', 'general', 'general', 'saa', 'single']))
     if kind == 'general':
         c = draw(D.dro_case(polyhedral=True, allow_kl=False, econs=True, amb2_ok=True, det_obj=True))
@@ -116,6 +193,8 @@ class C04(Prop):
         return c04_case()
 
     def check(self, case):
+        if case['variant'] == 'eeq':
+            return check_eeq(case)
         labels = ['variant:' + case['variant'], 'S:%d' % case['S'], 'prob:' + case['prob']['t'], 'obj:' + case['obj']['kind'],
                   'pieces:%d' % len(case['obj']['pieces']), 'exps:%d' % len(case['exps'])]
         if case['ny'] and np.any(case['ymask']):
